@@ -487,6 +487,120 @@ def run(loader, R, tier):
                                  " / ".join(wants)))
     R.floor("C container wrappers", nw, 13)
 
+    # --------------------------------------------------------------- R42.13
+    # shape table: the C matrix functions size their result before the core
+    # operation fills it; the size is the mathematical shape of the result
+    # (rows of the first operand x columns of the second for a product)
+    R.rule("R42.13", "C matrix functions size the result with the shape of "
+                     "the operation (product: rows(A) x cols(B))")
+    SHAPES = {"dense_matrix_mul_matrix": ("0.nrows", "1.ncols"),
+              "dense_matrix_add_matrix": ("0.nrows", "0.ncols"),
+              "dense_matrix_add_scalar": ("0.nrows", "0.ncols"),
+              "dense_matrix_mul_scalar": ("0.nrows", "0.ncols"),
+              "dense_matrix_transpose": ("0.ncols", "0.nrows"),
+              "dense_matrix_inv": ("0.nrows", "0.ncols")}
+    nsh = 0
+    for name, want in sorted(SHAPES.items()):
+        f = byname.get(name)
+        if f is None:
+            raise AnalysisBroken("C matrix function %s not found" % name)
+        mats = [p["n"] for p in f.get("params", ())
+                if p["t"].replace(" ", "").startswith("constCDenseMatrix*")]
+        sizing = [n for n in walk(f["body"]) if n.get("k") == "call"
+                  and n.get("n") == "dense_matrix_rows_cols"
+                  and len(n.get("a", ())) == 3]
+        if not sizing:
+            raise AnalysisBroken("%s: no result sizing found" % name)
+
+        def dim(e):
+            for y in walk(e):
+                if y.get("k") == "mcall" and y.get("n") in ("nrows",
+                                                            "ncols"):
+                    who = [z["n"] for z in walk(y.get("o") or {})
+                           if z.get("k") == "ref" and z.get("n") in mats]
+                    if who:
+                        return "%d.%s" % (mats.index(who[0]), y["n"])
+            return None
+        got = (dim(sizing[0]["a"][1]), dim(sizing[0]["a"][2]))
+        nsh += 1
+        R.instance("R42.13", name, sample={"function": name,
+                                           "sized_as": list(got)})
+        if got != want:
+            R.violation(
+                "R42.13", name, prog.loc(f, sizing[0].get("l")),
+                "%s sizes its result as (%s, %s) of its matrix operands; "
+                "the operation's result has shape (%s, %s): for operands "
+                "whose relevant dimensions differ the C result has the "
+                "wrong shape" % (name, got[0], got[1], want[0], want[1]))
+    R.floor("C matrix functions with a shape entry", nsh, 6)
+
+    # --------------------------------------------------------------- R42.12
+    # lifetime under aliasing: when an output handle's RCP is handed to the
+    # core by reference (outArg(basic_rcp(out))), the core writes it while it
+    # is still reading the inputs.  If out is the same handle as an input
+    # and its only owner, the input dies in mid-call unless the wrapper
+    # holds its own RCP copy (rcp_static_cast<...>(basic_rcp(in)) makes one;
+    # `*basic_rcp(in)` and `basic_rcp(in)` passed by reference do not).
+    R.rule("R42.12", "a call that receives an output handle by reference "
+                     "holds its own RCP of every input handle it reads")
+    n12 = 0
+    for f in sorted(ec, key=lambda f: f["n"]):
+        outs = {p["n"] for p in f.get("params", ())
+                if p["t"].replace(" ", "") == "CRCPBasic_C*"}
+        ins = {p["n"] for p in f.get("params", ())
+               if p["t"].replace(" ", "").startswith("constCRCPBasic_C*")}
+        if not outs or not ins:
+            continue
+
+        def has_out_ref(e):
+            return any(
+                y.get("k") == "call" and y.get("n") in ("outArg", "ptrFromRef")
+                and any(z.get("k") == "ref" and z.get("n") in outs
+                        for z in walk(y)) for y in walk(e))
+        for n in walk(f["body"]):
+            if n.get("k") not in ("call", "mcall") or n.get("n") in (
+                    "outArg", "ptrFromRef", "basic_rcp"):
+                continue
+            parts = list(n.get("a", ())) + ([n["o"]] if n.get("o") else [])
+            if not any(has_out_ref(p_) for p_ in parts
+                       if p_ is not None and p_ is not n.get("o")):
+                continue
+            n12 += 1
+            borrowed = []
+            for p_ in parts:
+                if p_ is None or has_out_ref(p_):
+                    continue
+
+                def scan(x, kept):
+                    if not isinstance(x, dict):
+                        return
+                    if x.get("k") == "call" and x.get("n") in (
+                            "rcp_static_cast", "rcp_dynamic_cast"):
+                        kept = True     # returns a new RCP: a keep-alive
+                    if x.get("k") == "ref" and x.get("d") == "param" \
+                            and x.get("n") in ins and not kept:
+                        borrowed.append(x["n"])
+                    for v in x.values():
+                        if isinstance(v, dict):
+                            scan(v, kept)
+                        elif isinstance(v, list):
+                            for y in v:
+                                scan(y, kept)
+                scan(p_, False)
+            key = "%s@%s" % (f["n"], n.get("l"))
+            R.instance("R42.12", key, sample={"call": show(n)[:70],
+                                              "borrowed_inputs": borrowed})
+            if borrowed:
+                R.violation(
+                    "R42.12", f["n"], prog.loc(f, n.get("l")),
+                    "%s passes the output handle by reference into `%s` "
+                    "while the input `%s` is only borrowed (dereferenced or "
+                    "passed by reference, no RCP copy): called in place "
+                    "with the output being the input's only owner, the "
+                    "input is freed while the core function still reads "
+                    "it" % (f["n"], show(n)[:50], borrowed[0]))
+    R.floor("core calls that receive an output handle by reference", n12, 2)
+
     # --------------------------------------------------------------- R42.11
     # objects the C API creates are completely initialised: `new T` of a
     # struct with an implicit default constructor leaves scalar members
